@@ -10,17 +10,19 @@ import glob
 import json
 import os
 import struct
+import types
 import zlib
 
 import dns.exception
 import dns.message
 import dns.name
 import dns.renderer
+import dns.tsig
 
 from harness.core import VERIF, Ctx, enc_labels, hx
 from harness.props import C03
 from harness.props.C03 import (L, absolute, case_of_message, check_walk, expected_records, gen_message, gen_rrset, hexl, lower,
-                               mk_message, mk_rrset, msg_tokens, normalise, parse, pin_time, render, same_message, tsig_case,
+                               mk_message, mk_rrset, msg_tokens, normalise, parse, pin_time, render, same_message, same_rrset, tsig_case,
                                walk_message, WalkError, wellformed, NameGen, gen_tsig, gen_options)
 
 RULE = (
@@ -273,6 +275,132 @@ def eval_one(ctx: Ctx, c: dict):
     check_rendering(ctx, c, w, ms, pt, full_w, key, m.origin, c["pad"])
 
 
+def opt_size_of(c, pad):
+    """what Message._compute_opt_reserve computes: the OPT record with, if padding is wanted, an empty PADDING option"""
+    if c["opt"] is None:
+        return 0
+    return 11 + sum(4 + len(bytes.fromhex(b)) for _, b in c["opt"]["options"]) + (4 if pad else 0)
+
+
+def tsig_size_of(c):
+    """the TSIG record with an uncompressed owner name and a MAC of the algorithm's size"""
+    if c["tsig"] is None:
+        return 0
+    t = c["tsig"]
+    wl = lambda labels: sum(len(l) + 1 for l in L(labels))
+    return wl(t["name"]) + 10 + wl(t["alg"]) + 16 + MAC_SIZES[bytes(L(t["alg"])[0]).lower()] + len(bytes.fromhex(t["other"]))
+
+
+def eval_robj(ctx: Ctx, c: dict):
+    """the Renderer *object* route, as a caller that does not go through Message.to_wire uses it:
+    [reserve] add_question/add_rrset… [release_reserved] add_opt(opt, pad, opt_size, tsig_size) write_header
+    add_tsig / add_multi_tsig [write_header]"""
+    pin_time()
+    dns.renderer.time = types.SimpleNamespace(time=lambda: float(C03.FIXED_TIME))
+    m, key = mk_message(c)
+    ms, pad, osz, tsz, hm, multi, res = c["max_size"], c["pad"], c["opt_size"], c["tsig_size"], c["hdr"], c["multi"], c["reserve"]
+    line_in = f"c08.robj {ms} {int(res)} {pad} {osz} {tsz} {hm} {model_tokens(c, pad=0)}"
+    r = dns.renderer.Renderer(m.id, int(m.flags), ms, m.origin)
+    if res:
+        try:
+            r.reserve(osz)
+            r.reserve(tsz)
+        except ValueError:
+            ctx.corr(line_in, "err ValueError", c)
+            ctx.count("robj.reserve-ValueError")
+            return
+    tr = []
+    kept = [[], [], [], []]
+    for sec in range(4):
+        for i, rr in enumerate(m.sections[sec]):
+            try:
+                if sec == 0:
+                    r.add_question(rr.name, rr.rdtype, rr.rdclass)
+                else:
+                    r.add_rrset(sec, rr, want_shuffle=False)
+                tr.append(f"ok:{r.output.tell()}:{len(r.compress)}")
+                kept[sec].append(c["sections"][sec][i])
+            except dns.exception.TooBig:
+                tr.append(f"big:{r.output.tell()}:{len(r.compress)}")
+    if res:
+        r.release_reserved()
+    opt_ok = tsig_ok = False
+    if m.opt is not None:
+        try:
+            r.add_opt(m.opt, pad, osz, tsz)
+            tr.append(f"opt:ok:{r.output.tell()}")
+            opt_ok = True
+        except dns.exception.TooBig:
+            tr.append(f"opt:big:{r.output.tell()}")
+    if hm != 1:
+        r.write_header()
+    if c["tsig"] is not None:
+        t = c["tsig"]
+        kn, alg = dns.name.Name(L(t["name"])), dns.name.Name(L(t["alg"]))
+        try:
+            if multi:
+                r.add_multi_tsig(None, kn, key, t["fudge"], t["orig_id"], t["error"], bytes.fromhex(t["other"]), b"", alg)
+            else:
+                r.add_tsig(kn, key, t["fudge"], t["orig_id"], t["error"], bytes.fromhex(t["other"]), b"", alg)
+            tr.append(f"tsig:ok:{r.output.tell()}")
+            tsig_ok = True
+        except dns.exception.TooBig:
+            tr.append(f"tsig:big:{r.output.tell()}")
+    if hm != 0:
+        r.write_header()
+    w = r.get_wire()
+    wm = w
+    if tsig_ok:
+        sp = mac_span(c, w)
+        wm = w[:sp[0]] + b"\0" * (sp[1] - sp[0]) + w[sp[1]:]
+    tbl = ";".join(f"{enc_labels(k.labels)}@{v}" for k, v in r.compress.items())
+    ctx.corr(line_in, f"ok {' '.join(tr)} out={hx(wm)} tbl={tbl}", c)
+    ctx.count("robj")
+    ctx.count("robj.opt." + ("none" if m.opt is None else "ok" if opt_ok else "TooBig"))
+    ctx.count("robj.tsig." + ("none" if c["tsig"] is None else "ok" if tsig_ok else "TooBig"))
+    # ---- direct oracle
+    if len(w) > ms:
+        fail(ctx, "C08/renderer/exceeds-limit", f"{len(w)} octets from a Renderer with max_size {ms}", c)
+    exact = osz == opt_size_of(c, pad) and tsz == tsig_size_of(c)
+    complete = (m.opt is None or opt_ok) and (c["tsig"] is None or tsig_ok)
+    if pad and opt_ok and complete and exact:
+        ctx.count("robj.padded")
+        try:
+            wk = walk_message(w)
+            optrec = [x for x in wk["recs"] if x["sec"] == 3 and x["rdtype"] == 41][-1]
+            if optrec["rdlen"] >= 4 and w[optrec["end"] - 4:optrec["end"]] == b"\x00\x0c\x00\x00":
+                ctx.count("robj.padded.remainder-0")
+        except (WalkError, IndexError):
+            pass
+        if len(w) % pad != 0:
+            trig = "tsig-owner-compressed" if (c["tsig"] is not None and tsig_owner_compressed(w)) else "other"
+            fail(ctx, f"C08/renderer/padding-multiple/{trig}",
+                 f"Renderer.add_opt(pad={pad}, opt_size={osz}, tsig_size={tsz}) + add_{'multi_' if multi else ''}tsig: final length {len(w)} = {len(w) % pad} mod {pad}", c)
+    kr = None if key is None else {key.name: key}
+    try:
+        m2 = dns.message.from_wire(w, keyring=kr, origin=m.origin, multi=bool(multi and tsig_ok))
+    except Exception as e:  # noqa: BLE001
+        fail(ctx, f"C08/renderer/unparseable/{type(e).__name__}", f"from_wire (keyring given) of the Renderer's output raised {type(e).__name__}: {e}", c)
+        return
+    if tsig_ok != bool(m2.had_tsig):
+        fail(ctx, "C08/renderer/lost-TSIG", f"add_tsig succeeded: {tsig_ok}, parsed had_tsig: {m2.had_tsig}", c)
+    if opt_ok != (m2.opt is not None):
+        fail(ctx, "C08/renderer/lost-OPT", f"add_opt succeeded: {opt_ok}, parsed opt: {m2.opt is not None}", c)
+    if opt_ok and pad and not any(int(o.otype) == 12 for o in m2.options):
+        fail(ctx, "C08/renderer/no-padding-option", f"pad={pad} but the parsed OPT has no PADDING option", c)
+    mk, _ = mk_message(dict(c, sections=kept, opt=None, tsig=None))
+    for sx in range(4):
+        if len(mk.sections[sx]) != len(m2.sections[sx]):
+            fail(ctx, "C08/renderer/records-differ", f"section {sx}: {len(m2.sections[sx])} rrsets parsed, {len(mk.sections[sx])} added", c)
+            break
+        for a, b in zip(mk.sections[sx], m2.sections[sx]):
+            d = same_rrset(a, b, m.origin, None)
+            if d:
+                fail(ctx, "C08/renderer/records-differ", f"section {sx}: {d} of {a.name}", c)
+    for clause, text in check_walk(dict(c, sections=kept), w):
+        fail(ctx, f"C08/renderer/{clause}", text, c)
+
+
 def true_full_size(c, m):
     """the size of the complete rendering, computed without Message.to_wire: the sections through a Renderer with an
     unreachable limit, plus the OPT and (uncompressed) TSIG records from the case"""
@@ -407,6 +535,8 @@ def eval_case(ctx: Ctx, c: dict):
         eval_steps(ctx, c)
     elif k == "limits":
         eval_limits(ctx, c)
+    elif k == "robj":
+        eval_robj(ctx, c)
     else:
         raise ValueError(k)
 
@@ -508,8 +638,75 @@ def gen_large(rng, target, want_opt, want_tsig):
     return c
 
 
+ROBJ_PADS = [2, 3, 4, 5, 7, 8, 16, 32, 64, 128, 468]
+ROBJ_ALGS = [b"hmac-sha256", b"hmac-sha1", b"hmac-sha512", b"hmac-sha224", b"hmac-sha384", b"hmac-md5", b"HMAC-SHA256"]
+
+
+def gen_robj(rng):
+    """a script for the Renderer object route: small message, OPT with options, a block size, a TSIG key whose name mostly
+    shares a suffix with (or equals) a name already rendered, caller-supplied opt_size/tsig_size (mostly the exact ones),
+    and — two times out of three — a filler record sized so that the unpadded size is already a multiple of the block"""
+    use_origin = rng.chance(1, 6)
+    base = [b"example", b""]
+
+    def nm(*labels):
+        return hexl(list(labels) + ([] if use_origin else base))
+
+    def rr(name, rdtype, rds, ttl=300):
+        return {"name": name, "rdclass": 1, "rdtype": rdtype, "covers": 0, "deleting": None, "ttl": ttl, "rdatas": rds}
+
+    def raw(n):
+        return {"k": "o", "b": rng.bytes(n).hex()}
+
+    ql = b"w" * (1 + rng.below(40)) if rng.chance(1, 2) else rng.choice([b"www", b"WWW", b"a", b"key"])
+    sections = [[] if rng.chance(1, 8) else [rr(nm(ql), 1, [], 0)], [], [], []]
+    pool = [rr(nm(ql), 1, [raw(4), raw(4)]), rr(nm(ql), 2, [{"k": "n", "n": nm(b"ns")}]),
+            rr(nm(b"mail"), 15, [{"k": "m", "p": 10, "n": nm(b"mx", ql)}]),
+            rr(hexl([b"other", b"org", b""]), 65280, [raw(rng.below(60))]),
+            rr(nm(b"ns"), 28, [raw(16)])]
+    chosen = [pool.pop(rng.below(len(pool))) for _ in range(rng.below(4))]
+    for sc, x in zip(sorted(1 + rng.below(3) for _ in chosen), chosen):
+        sections[sc].append(x)
+    filler = rng.chance(5, 6)
+    if filler:
+        sections[3].append(rr(nm(b"fill"), 65281, [raw(rng.below(24))]))
+    c = {"kind": "robj", "id": rng.below(65536), "flags": rng.choice([0, 0x0100, 0x8400, 0x8180]), "origin": hexl(base) if use_origin else None,
+         "request_payload": 0, "pad": 0, "sections": sections, "opt": None, "tsig": None}
+    if rng.chance(9, 10):
+        c["opt"] = {"ttl": rng.choice([0, 0x8000, 0x01000000]), "payload": rng.choice([512, 1232, 4096]),
+                    "options": [[rng.choice([3, 10, 15, 65001]), rng.bytes(rng.below(12)).hex()] for _ in range(rng.below(3))]}
+    if rng.chance(5, 6):
+        kn = rng.choice([[b"key"] + base, [ql] + base, [b"key", ql] + base, base, [b"key", b"other", b""], [b"KEY", b"EXAMPLE", b""],
+                         [b"k" * (1 + rng.below(30))] + base])
+        c["tsig"] = {"name": hexl(kn), "alg": hexl([rng.choice(ROBJ_ALGS), b""]), "time": C03.FIXED_TIME, "fudge": rng.choice([300, 1, 65535]),
+                     "mac": "", "orig_id": rng.choice([c["id"], rng.below(65536)]), "error": 0, "other": ""}
+        c["secret"] = rng.bytes(rng.choice([8, 16, 32])).hex()
+    pad = 0 if rng.chance(1, 10) else rng.choice(ROBJ_PADS) if rng.chance(2, 3) else 1 + rng.below(64)
+    osz, tsz = opt_size_of(c, pad), tsig_size_of(c)
+
+    def sections_size():
+        m, _ = mk_message(c)
+        return true_full_size(dict(c, opt=None, tsig=None), m)
+
+    if pad and filler and c["opt"] is not None and rng.chance(2, 3):
+        d = (-(sections_size() + osz + tsz)) % pad
+        f = sections[3][-1]["rdatas"][0]
+        f["b"] = (bytes.fromhex(f["b"]) + rng.bytes(d)).hex()
+    pos = sections_size()
+    if rng.chance(1, 8):
+        osz += rng.below(5)
+        tsz = rng.choice([0, tsz + 1, max(0, tsz - 3), tsz])
+    total = pos + osz + tsz + (((-(pos + osz + tsz)) % pad) if pad and c["opt"] is not None else 0)
+    c.update(pad=pad, opt_size=osz, tsig_size=tsz, hdr=rng.below(3), multi=rng.chance(1, 3), reserve=rng.chance(1, 2),
+             max_size=65535 if rng.chance(5, 6) else max(12, total + rng.range(-24, 3)))
+    return c
+
+
 def generate(ctx: Ctx, scale: int, rng):
     n = lambda q: max(1, q * scale)
+    # the Renderer object route (add_opt with pad/opt_size/tsig_size, then add_tsig / add_multi_tsig)
+    for i in range(3000 if scale == 1 else 1000 * scale):
+        run_one(ctx, gen_robj(rng))
     # explicit limits far from the message size: around and above 64 KiB on large messages, around 512 and below on small ones
     if scale == 1:
         # quick: one message just over 64 KiB at three limits (the model takes ~0.8 s per rendering; max_size=0 on large messages is in the thorough tier)
